@@ -255,6 +255,9 @@ pub enum Event {
     Reopen(crate::eng::Cfg),
     /// quiescent-point audit: compare every table with the model
     Check,
+    /// `n` empty transactions (session opened, then rolled back; every third one committed):
+    /// moves the transaction-id counter without touching any table
+    TxnBurst(u32),
 }
 
 impl Event {
@@ -272,6 +275,7 @@ impl Event {
             Event::Flush => "FLUSH".into(),
             Event::Reopen(c) => format!("REOPEN cache={} pool={}", c.cache, c.pool),
             Event::Check => "CHECK".into(),
+            Event::TxnBurst(n) => format!("{n} empty transactions"),
         }
     }
 }
